@@ -9,7 +9,7 @@ def run(tier, rep):
     srcs = async_sources(tier, sd)
     tasks = []
     for i, s in enumerate(srcs):
-        if tier == "thorough" or i < 8:
+        if tier == "thorough" or i < 8 or ".L3." in s["name"]:  # (L3 has a sink: pruned away under MCS + prune)
             tasks.append(dict(src=s))  # all 3 modes x prune
         else:
             tasks.append(dict(src=s, modes=(("MCS", "GENERATIONAL", "TOPOLOGICAL")[(i + sd) % 3],), prunes=(bool((i + sd) % 2),)))
